@@ -21,6 +21,13 @@ import (
 
 const watchdog = 8 * time.Second
 
+// run-wide observations that are not plain counters
+var stats = struct {
+	mu       sync.Mutex
+	maxConc  int
+	postStop map[string]int
+}{postStop: map[string]int{}}
+
 // fcOp is one call the harness made on the FillCache.
 type fcOp struct {
 	Kind    string   `json:"op"` // update | get | loop | stop
@@ -318,25 +325,25 @@ func judgeFill(rep *vh.Report, stream string, idx int, kc *fcCase, run *fcRun) (
 			viol("overlapping-fills-of-one-group", fmt.Sprintf("%d fills of one group were in progress at the same time", maxConc[g]), g, nil, ov)
 		}
 	}
-	rep.SetAdd("max_concurrent_fills_per_group", strconv.Itoa(int(worst)))
+	stats.mu.Lock()
+	if int(worst) > stats.maxConc {
+		stats.maxConc = int(worst)
+	}
+	stats.mu.Unlock()
 	if worst > 1 {
 		rep.Count("cases_with_overlapping_fills", 1)
 	}
 
 	// 2. refresh loops: second RefreshLoop refused; at most one loop goroutine per group
 	started := map[string]int{}
-	var stopRet int64 = inf
 	for _, o := range ops {
-		switch o.Kind {
-		case "loop":
+		if o.Kind == "loop" {
 			if o.OK {
 				started[o.Group]++
 				rep.Count("loops_started", 1)
 			} else {
 				rep.Count("loops_refused", 1)
 			}
-		case "stop":
-			stopRet = o.Ret
 		}
 	}
 	for _, g := range gs {
@@ -362,8 +369,6 @@ func judgeFill(rep *vh.Report, stream string, idx int, kc *fcCase, run *fcRun) (
 			rep.Count("groups_with_a_loop_goroutine", 1)
 		}
 	}
-	_ = stopRet
-
 	// 3. join fills with the harness Update calls that made them; build per-group histories
 	type hop struct {
 		po   porcupine.Operation
@@ -837,8 +842,7 @@ func runFillSeq(rep *vh.Report, env vh.Env, i int) {
 	}
 	rep.Eval()
 	kc.Trace = d.getTrace()
-	s2, _ := judgeFill(rep, stream, i, kc, run)
-	_ = s2
+	judgeFill(rep, stream, i, kc, run)
 	rep.Distinct("fc-seq|" + strings.Join(shape, " "))
 	if i == 0 {
 		rep.Sample(map[string]interface{}{"stream": stream, "index": i, "trace": kc.Trace})
@@ -1051,7 +1055,9 @@ func runFillConc(rep *vh.Report, env vh.Env, i int) {
 		}
 		for _, g := range looped {
 			n := d.loopFillsBegun(g, h, stopRet)
-			rep.SetAdd("post_stop_periodic_fills_per_group", strconv.Itoa(n))
+			stats.mu.Lock()
+			stats.postStop[strconv.Itoa(n)]++
+			stats.mu.Unlock()
 			rep.Count("fc_post_stop_periodic_fills", n)
 			rep.Count("fc_loops_observed_after_stop", 1)
 			if n > postStopAllowance {
